@@ -309,6 +309,9 @@ func runReceiver(c *rcase, out *vh.LineWriter, st *vh.Stats) {
 				recv.Tick()
 			}
 			st.Count("tick")
+		case opConcTick:
+			recv.Tick()
+			st.Count("tick")
 		case opDrain:
 			for k := uint64(0); k < c.to+c.gc+1; k++ {
 				recv.Tick()
@@ -452,7 +455,7 @@ func runSender(c *rcase, out *vh.LineWriter, st *vh.Stats) {
 // executed by a child process; a crash is reported against the case that was running.
 func isolatedCase(line string) bool {
 	f := strings.Fields(firstN(line, 400))
-	return len(f) >= 2 && (f[1] == "G" || strings.Contains(firstN(line, 400), " par=1"))
+	return len(f) >= 2 && (f[1] == "G" || strings.Contains(firstN(line, 400), " par=1") || strings.Contains(firstN(line, 400), " cgc="))
 }
 
 func runLine(line string, out *vh.LineWriter, st *vh.Stats) {
@@ -470,7 +473,9 @@ func runLine(line string, out *vh.LineWriter, st *vh.Stats) {
 		runGlue(parseGCase(line), out, st)
 	default:
 		c := parseCase(line)
-		if c.par {
+		if c.cgcSet {
+			runConcurrentGC(c, out, st)
+		} else if c.par {
 			runParallel(c, out, st)
 		} else if c.kind == "S" {
 			runSender(c, out, st)
